@@ -85,7 +85,7 @@ def op_strategy(draw, style):
     elif kind == "edit":
         op.update(offset=draw(st.one_of(lat, lat.map(lambda t: -t))), mode=draw(st.sampled_from(["silence", "warning", "error"])))
     elif kind == "insert_entry":
-        op.update(a=draw(lat), b=draw(st.one_of(lat, lat, st.sampled_from([20.0, 40.0]))), label=draw(st.sampled_from(["n", " n ", "", "m\n", "x"])),
+        op.update(a=draw(st.one_of(lat, lat, st.sampled_from([0.0, 0.125]))), b=draw(st.one_of(lat, lat, st.sampled_from([20.0, 40.0]))), label=draw(st.sampled_from(["n", " n ", "", "m\n", "x"])),
                   mode=draw(st.sampled_from(["error", "error", "error", "replace", "merge", "merge", "replace", "bogus"])),
                   report=draw(st.sampled_from(["silence", "warning", "silence", "warning", "bogus"])),
                   form=draw(st.sampled_from(["obj", "tuple", "list"])))
@@ -109,6 +109,9 @@ def histories(draw, max_steps=12):
                            gen.point_tier(style=style, label=gen.AB, name="p0")))]
     if draw(st.booleans()):
         init.append(draw(gen.interval_tier(style=style, label=gen.AB, name="i1")))
+    for t in init:
+        if t["entries"] and t["entries"][0][0] > 0 and draw(st.booleans()):
+            t["minT"] = t["entries"][0][0]  # a tier whose span starts at its first entry, not at 0
     n = draw(st.integers(1, max_steps))
     return {"style": style, "init": init, "ops": [draw(op_strategy(style)) for _ in range(n)]}
 
